@@ -34,7 +34,7 @@ var portableRunes = []rune("ABCDEFGHIJKLMNOPQRSTUVWXYZabcdefghijklmnopqrstuvwxyz
 func GenName(t *rapid.T, class string, label string) string {
 	switch class {
 	case "long":
-		n := rapid.SampledFrom([]int{64, 100, 110, 111, 128, 200, 254, 255}).Draw(t, label+"-len")
+		n := rapid.SampledFrom([]int{64, 80, 100, 109, 110, 110, 111, 128, 221, 222, 255}).Draw(t, label+"-len")
 		base := rapid.StringOfN(rapid.RuneFrom(portableRunes), 1, 8, -1).Draw(t, label)
 		return (base + strings.Repeat("x", n))[:n]
 	case "nonascii":
@@ -102,7 +102,7 @@ func GenTree(t *rapid.T, o TreeOpts) *Node {
 			default:
 				name = GenName(t, class, l)
 			}
-			if used[name] || name == "" {
+			if used[name] || name == "" || len(name) > 255 {
 				continue
 			}
 			fold := strings.ToUpper(name)
